@@ -239,3 +239,63 @@ func orderString(k interface{}) string {
 	}
 	return fmt.Sprintf("%v", k)
 }
+
+// ---------------------------------------------------------------- function-written package-level variables
+
+type globalVar struct {
+	name  string
+	ptr   reflect.Value // pointer to the variable
+	saved reflect.Value
+}
+
+var globalVars []*globalVar
+
+// RegisterGlobal is called from generated init functions with a pointer to each package-level variable
+// that some function other than init assigns.
+func RegisterGlobal(name string, ptr interface{}) {
+	globalVars = append(globalVars, &globalVar{name: name, ptr: reflect.ValueOf(ptr)})
+}
+
+func cloneShallow(v reflect.Value) reflect.Value {
+	switch v.Kind() {
+	case reflect.Slice:
+		if v.IsNil() {
+			return v
+		}
+		c := reflect.MakeSlice(v.Type(), v.Len(), v.Len())
+		reflect.Copy(c, v)
+		return c
+	case reflect.Map:
+		if v.IsNil() {
+			return v
+		}
+		c := reflect.MakeMapWithSize(v.Type(), v.Len())
+		it := v.MapRange()
+		for it.Next() {
+			c.SetMapIndex(it.Key(), it.Value())
+		}
+		return c
+	}
+	c := reflect.New(v.Type()).Elem()
+	c.Set(v)
+	return c
+}
+
+// SnapshotGlobals remembers the current value of every registered variable (containers are copied one level deep).
+func SnapshotGlobals() []string {
+	var names []string
+	for _, g := range globalVars {
+		g.saved = cloneShallow(g.ptr.Elem())
+		names = append(names, g.name)
+	}
+	return names
+}
+
+// RestoreGlobals puts the remembered values back.
+func RestoreGlobals() {
+	for _, g := range globalVars {
+		if g.saved.IsValid() {
+			g.ptr.Elem().Set(cloneShallow(g.saved))
+		}
+	}
+}
